@@ -7,8 +7,9 @@ the model's own definitions (vm_compute inside Coq) against SSHConfig.from_text(
 get_hostnames() on generated configs rendered to text from a structured form; the parsed
 SSHConfig._config is compared with the structured form (parse round trip) and with the model's block_config.
 Search oracle: the property stated directly — an independent brute-force "first applicable block"
-computation over the structured config (own glob matcher via `re`, own simultaneous token
-substitution), IdentityFile duplicate check, HostName default, get_hostnames = every Host pattern.
+computation over the structured config for every modelled criterion (the closed form of theorem
+C40_two_pass: Match host/user see the HostName/User of the earlier applying blocks; own glob matcher via
+`re`, own simultaneous token substitution), several lookups on one SSHConfig object, IdentityFile duplicate check, HostName default, get_hostnames = every Host pattern.
 """
 import contextlib
 import os
@@ -308,11 +309,6 @@ def canon_dict(d):
     return out
 
 
-def impl_lookup(text, host):
-    from paramiko.config import SSHConfig
-    return dict(SSHConfig.from_text(text).lookup(host))
-
-
 def impl_hostnames(text):
     from paramiko.config import SSHConfig
     return SSHConfig.from_text(text).get_hostnames()
@@ -374,25 +370,6 @@ def is_static(cfg):
                for b in cfg["blocks"])
 
 
-def block_applies_static(b, host, envt):
-    if "host" in b:
-        return patterns_apply(b["host"], host)
-    for t, neg, param in b["match"]:
-        if t == "all":
-            return True
-        if t == "canonical":
-            ok = False                        # never a canonicalised lookup on the fragment
-        elif t == "originalhost":
-            ok = patterns_apply(param.split(","), host)
-        elif t == "localuser":
-            ok = patterns_apply(param.split(","), envt[0])
-        else:
-            raise AssertionError(t)
-        if ok == neg:
-            return False
-    return True
-
-
 def unquote(v):
     return v[1:-1] if v.startswith('"') and v.endswith('"') else v
 
@@ -407,31 +384,100 @@ def clean(s):
     return "%" not in s and "~" not in s
 
 
-def expected_static(cfg, host, envt):
-    """{key: value | SKIP} for a config whose blocks are all option-independent."""
+def crit_applies(match, host, envt, oh, ou, final):
+    """All criteria of a Match line hold.  `oh` / `ou`: the (raw) HostName / User values obtained from the
+    earlier applying blocks, None when not yet set."""
+    for t, neg, param in match:
+        if t == "all":
+            return True
+        if t == "canonical":
+            ok = False                        # never a canonicalised lookup on the fragment
+        elif t == "final":
+            ok = final
+        elif t == "host":
+            ok = patterns_apply(param.split(","), oh or host)
+        elif t == "originalhost":
+            ok = patterns_apply(param.split(","), host)
+        elif t == "user":
+            ok = patterns_apply(param.split(","), ou or envt[0])
+        elif t == "localuser":
+            ok = patterns_apply(param.split(","), envt[0])
+        else:
+            raise AssertionError(t)
+        if ok == neg:
+            return False
+    return True
+
+
+def block_view(body):
+    """Property-level view of one block: the first line for a key wins; list keys collect."""
+    d = {}
+    for k, v in body:
+        if k in LIST_KEYS:
+            d.setdefault(k, []).append(unquote(v))
+        elif k not in d:
+            d[k] = None if (k == "proxycommand" and v.lower() == "none") else unquote(v)
+    return d
+
+
+def sel(blocks, host, envt, final, oh, ou, k):
+    """Closed form of C40_two_pass: (found, value, block) of key k in the first block that applies and sets
+    k, applicability being decided with the HostName / User of the earlier applying blocks only."""
+    for b in blocks:
+        if patterns_apply(b["host"], host) if "host" in b else crit_applies(b["match"], host, envt, oh, ou, final):
+            d = block_view(b["body"])
+            if k in d:
+                return True, d[k], b
+            if oh is None and "hostname" in d:
+                oh = d["hostname"]
+            if ou is None and "user" in d:
+                ou = d["user"]
+    return False, None, None
+
+
+def coll(blocks, host, envt, final, oh, ou):
+    """IdentityFile values of the applying blocks in order (same bookkeeping as sel)."""
+    out = []
+    for b in blocks:
+        if patterns_apply(b["host"], host) if "host" in b else crit_applies(b["match"], host, envt, oh, ou, final):
+            d = block_view(b["body"])
+            out += d.get("identityfile", [])
+            if oh is None and "hostname" in d:
+                oh = d["hostname"]
+            if ou is None and "user" in d:
+                ou = d["user"]
+    return out
+
+
+def expected_lookup(cfg, host, envt):
+    """{key: value | SKIP}: the property computed by brute force over the structured config, for every
+    modelled criterion (first pass, HostName default, final pass — as in theorem C40_two_pass)."""
     allblocks = [{"host": ["*"], "body": cfg["global"]}] + cfg["blocks"]
-    app = [b for b in allblocks if block_applies_static(b, host, envt)]
+    keys = []
+    for b in allblocks:
+        for k, _ in b["body"]:
+            if k not in keys:
+                keys.append(k)
+    f1h, h1, _ = sel(allblocks, host, envt, False, None, None, "hostname")
+    f1u, u1, _ = sel(allblocks, host, envt, False, None, None, "user")
+    oh2 = h1 if f1h else host
+    ou2 = u1 if f1u else None
     raw = {}
     skip = set()
-    for b in app:
-        d = {}
-        for k, v in b["body"]:            # within a block: the first line for a key; list keys collect
-            if k == "identityfile":
-                continue
-            if k in LIST_KEYS:
-                d.setdefault(k, []).append(unquote(v))
-            elif k not in d:
-                d[k] = None if (k == "proxycommand" and v.lower() == "none") else unquote(v)
-        for k, v in d.items():
-            if k not in raw:
-                raw[k] = v
-                if k == "proxycommand" and quirky_proxy(b["body"]):
-                    skip.add(k)
+    for k in keys:
+        if k == "identityfile":
+            continue
+        found, v, blk = sel(allblocks, host, envt, False, None, None, k)
+        if not found and k != "hostname":
+            found, v, blk = sel(allblocks, host, envt, True, oh2, ou2, k)
+        if found:
+            raw[k] = v
+            if k == "proxycommand" and quirky_proxy(blk["body"]):
+                skip.add(k)
     ids = []
-    for b in app:
-        for k, v in b["body"]:
-            if k == "identityfile" and unquote(v) not in ids:
-                ids.append(unquote(v))
+    for x in coll(allblocks, host, envt, False, None, None) + coll(allblocks, host, envt, True, oh2, ou2):
+        if x not in ids:
+            ids.append(x)
     if ids:
         raw["identityfile"] = ids
     if "hostname" not in raw:
@@ -482,12 +528,29 @@ def all_host_patterns(cfg):
     return s
 
 
-def check_case(ctx, cfg, text, host, envt):
-    """Run the real lookup on one (config, host); apply the oracle; returns the impl result (dict) or None."""
+def scribble(res):
+    """Caller-side mutation of a returned result: must never reach the parsed config or later lookups."""
+    for v in res.values():
+        if isinstance(v, list):
+            v.append("<<caller-appended>>")
+
+
+def check_case(ctx, cfg, text, host, envt, sc=None, prior=()):
+    """Run the real lookup on one (config, host) — on the SSHConfig object `sc` that already served the
+    lookups `prior` (a fresh object replaying them when sc is None); apply the oracle; returns the impl
+    result (dict) or None."""
+    import copy
     set_env(envt)
-    case = {"text": text, "host": host, "env": list(envt), "config": cfg}
+    case = {"text": text, "host": host, "env": list(envt), "config": cfg, "prior": list(prior)}
     try:
-        got = impl_lookup(text, host)
+        if sc is None:
+            from paramiko.config import SSHConfig
+            sc = SSHConfig.from_text(text)
+            for h in prior:
+                scribble(sc.lookup(h))
+        res = sc.lookup(host)
+        got = copy.deepcopy(dict(res))
+        scribble(res)
     except Exception as e:  # noqa
         ctx.fail("lookup-raises-" + type(e).__name__, "lookup raised %s on a well-formed config" % type(e).__name__,
                  case=case, expected="an options dict", observed=repr(e))
@@ -498,8 +561,8 @@ def check_case(ctx, cfg, text, host, envt):
                  expected=sorted(set(ids)), observed=ids)
     if "hostname" not in got:
         ctx.fail("hostname-default-missing", "lookup result has no hostname", case=case, expected=host, observed=got)
-    if is_static(cfg):
-        exp = expected_static(cfg, host, envt)
+    exp = expected_lookup(cfg, host, envt)
+    if exp is not None:
         if set(exp) != set(got):
             ctx.fail("first-obtained-keys", "set of options differs from the first-applicable-block computation",
                      case=case, expected=sorted(exp), observed=sorted(got))
@@ -559,6 +622,18 @@ def check_parse(ctx, cfg, text):
                  expected=want, observed=repr(e))
         return None
     got = [dict(x) for x in got]
+
+    def norm(entries):
+        # repeats inside one block's IdentityFile list are not observable through lookups: compare up to them
+        out = []
+        for e in entries:
+            e = dict(e, config=dict(e["config"]))
+            ids = e["config"].get("identityfile")
+            if isinstance(ids, list):
+                e["config"]["identityfile"] = [x for i, x in enumerate(ids) if x not in ids[:i]]
+            out.append(e)
+        return out
+    got, want = norm(got), norm(want)
     if got != want:
         i = next((j for j in range(min(len(got), len(want))) if got[j] != want[j]), min(len(got), len(want)))
         ctx.fail("parser-structure", "the parsed block structure differs from the structured config that was rendered "
@@ -588,6 +663,18 @@ def check_hostnames(ctx, cfg, text):
 
 # directed cases (run first on every seed): the three repaired defects and parser quirks
 DIRECTED = [
+    # Match host on a HostName set by an earlier block, with a competing later block
+    ({"global": [], "blocks": [{"host": ["app*"], "body": [("hostname", "%h.prod.internal"), ("identityfile", "/keys/app")]},
+                               {"match": [("host", False, "*.prod.internal")],
+                                "body": [("user", "deploy"), ("identityfile", "/keys/prod"),
+                                         ("proxycommand", "ssh -W %h:%p gate")]},
+                               {"match": [("user", False, "deploy")], "body": [("port", "2200")]},
+                               {"host": ["*"], "body": [("user", "nobody"), ("identityfile", "/keys/default"),
+                                                        ("proxycommand", "none"), ("port", "22")]}]},
+     ["app3", "db1"]),
+    # one identityfile-bearing block with host-dependent tokens, several names on the same object
+    ({"global": [], "blocks": [{"host": ["*"], "body": [("identityfile", "/k/%h_%r"), ("localforward", "1 %h:2")]},
+                               {"host": ["b"], "body": [("user", "ub")]}]}, ["a", "b", "c"]),
     ({"global": [], "blocks": [{"host": ["a", "b"], "body": [("user", "x")]},
                                {"match": [("all", False, "")], "body": [("port", "3")]}]}, ["a", "zz"]),
     ({"global": [], "blocks": [{"host": ["a"], "body": [("identityfile", "k1"), ("identityfile", "k1"),
@@ -618,8 +705,10 @@ def run(ctx):
                 "lines, IdentityFile lists, %-tokens and ~ in HostName/IdentityFile/ProxyCommand/ControlPath/"
                 "ProxyJump, quoted values, 'ProxyCommand none', Match all/canonical/final/host/originalhost/user/"
                 "localuser with negation) rendered to text with random layout/case/separators/comments and parsed "
-                "by the real SSHConfig; 60% of the configs use option-independent criteria only (full oracle); "
+                "by the real SSHConfig; 60% of the configs use option-independent criteria only (the oracle is exact for all of them); "
                 "every rendered config is also compared block by block with the parser's _config (parse round trip); "
+                "each config is parsed once and serves all its lookups (first name looked up again at the end, returned "
+                "lists scribbled on by the caller in between; the parsed _config must stay unchanged); "
                 "8 malformed texts must raise ConfigParseError; random hostnames; 4 pinned environments; a case is non-trivial when distinct and at least one "
                 "block other than the implicit global one exists")
     ctx.trusted += ["model coq/Model/C40.v is hand-written; tied to paramiko/config.py by coq/Gen/C40_gen.v (token "
@@ -667,8 +756,17 @@ def run(ctx):
             canon = pre + canon
             impl = {"get_hostnames": sorted(hn) if hn is not None else None,
                     "_config": parsed}
+            import copy
+            try:
+                sc_obj = SSHConfig.from_text(text)
+                before = copy.deepcopy([dict(x) for x in sc_obj._config])
+            except Exception:  # noqa  (already reported by check_parse)
+                sc_obj, before = None, None
+            hosts = list(hosts) + ([hosts[0]] if hosts else [])     # the first name again, on the same object
+            done = []
             for host in hosts:
-                got = check_case(ctx, cfg, text, host, envt)
+                got = check_case(ctx, cfg, text, host, envt, sc=sc_obj, prior=done)
+                done.append(host)
                 ctx.count(("lookup", text, host, envt), nontrivial=bool(cfg["blocks"]),
                           kind="lookup-directed" if directed else "lookup-static" if stat else "lookup-dynamic")
                 r = canon_options(got) if got is not None else [-2]
@@ -676,6 +774,12 @@ def run(ctx):
                 impl[host] = got
                 if got is not None and len(ctx.samples) < 2 and len(cfg["blocks"]) >= 2 and not directed:
                     ctx.sample({"lookup": {"text": text, "host": host, "env": list(envt), "impl": got}})
+            if sc_obj is not None and [dict(x) for x in sc_obj._config] != before:
+                after = [dict(x) for x in sc_obj._config]
+                i = next(j for j in range(len(before)) if after[j] != before[j])
+                ctx.fail("lookup-mutates-config", "lookups (or changes made by the caller to their results) modify the "
+                         "parsed configuration", case={"text": text, "config": cfg, "hosts": hosts, "env": list(envt)},
+                         expected=before[i], observed=after[i])
             cfg_cases.append(("((%s,%s,%s,%s), %s, %s, [%s])" % (
                 zs(envt[0]), zs(envt[1]), zs(envt[2]), zs(envt[3]), coq_body(cfg["global"]), coq_blocks(cfg),
                 ";".join(zs(h) for h in hosts)), canon, {"text": text, "hosts": hosts, "env": list(envt), "impl": impl}))
@@ -747,7 +851,18 @@ def replay(ctx, rep):
         ctx.count(("replay", case["text"]))
         ctx.count(("replay2", case["text"]))
         if "host" in case:
-            check_case(ctx, cfg, case["text"], case["host"], tuple(case["env"]))
+            check_case(ctx, cfg, case["text"], case["host"], tuple(case["env"]), prior=case.get("prior", ()))
+        elif "hosts" in case:
+            set_env(tuple(case["env"]))
+            import copy
+            from paramiko.config import SSHConfig
+            sc = SSHConfig.from_text(case["text"])
+            before = copy.deepcopy([dict(x) for x in sc._config])
+            for h in case["hosts"]:
+                scribble(sc.lookup(h))
+            after = [dict(x) for x in sc._config]
+            if after != before:
+                ctx.fail(rep["key"], rep["what"], case=case, expected=before, observed=after)
         elif rep.get("key", "").startswith("pars"):
             check_parse(ctx, cfg, case["text"])
         else:
